@@ -10,7 +10,10 @@ import (
 
 /* internal constants & structs  {{{ */
 
-const maxRegisters = 200
+// Lua 5.1's limits: at most 200 local variables (LUAI_MAXVARS) and a frame of at most 250
+// registers (MAXSTACK) in one function; register operands are 8 bits wide.
+const maxLocalVars = 200
+const maxRegisters = 250
 const maxUpvalues = 255 // FunctionProto.NumUpvalues is a uint8
 
 type expContextType int
@@ -645,7 +648,7 @@ func (fc *funcContext) EndScope() {
 }
 
 func (fc *funcContext) SetRegTop(top int) {
-	if top > maxRegisters {
+	if top > maxLocalVars {
 		raiseCompileError(fc, fc.Proto.LineDefined, "too many local variables")
 	}
 	fc.regTop = top
@@ -1387,7 +1390,7 @@ func constFold(exp ast.Expr) ast.Expr { // {{{
 func compileFunctionExpr(context *funcContext, funcexpr *ast.FunctionExpr, ec *expcontext) { // {{{
 	context.Proto.LineDefined = sline(funcexpr)
 	context.Proto.LastLineDefined = eline(funcexpr)
-	if len(funcexpr.ParList.Names) > maxRegisters {
+	if len(funcexpr.ParList.Names) > maxLocalVars {
 		raiseCompileError(context, context.Proto.LineDefined, "register overflow")
 	}
 	context.Proto.NumParameters = uint8(len(funcexpr.ParList.Names))
